@@ -429,11 +429,20 @@ def dataset_level(ctx, reqs, pend, n_sets):
         k = ctx.rng.randint(0, 5)
         mazes = [_make(ctx, "solved", ctx.rng.randint(2, 5)) for _ in range(k)]
         ds = MazeDataset(MazeDatasetConfig(name="c07", grid_n=5, n_mazes=k), mazes)
+        members = None
+        if k >= 2 and ctx.rng.random() < 0.5:
+            # the other dataset-level container: a collection whose members hold the same mazes in the same order (possibly an empty member)
+            from maze_dataset.dataset.collected_dataset import MazeDatasetCollection, MazeDatasetCollectionConfig
+            cuts = sorted(ctx.rng.randint(0, k) for _ in range(ctx.rng.randint(1, 2)))
+            parts = [mazes[a:b] for a, b in zip([0] + cuts, cuts + [k])]
+            mds = [MazeDataset(MazeDatasetConfig(name=f"c07m{j}", grid_n=5, n_mazes=len(pt)), list(pt)) for j, pt in enumerate(parts)]
+            ds = MazeDatasetCollection(MazeDatasetCollectionConfig(name="c07c", maze_dataset_configs=[d.cfg for d in mds]), mds)
+            members = [len(pt) for pt in parts]; ctx.count("stream=collection")
         flavour, mode = ctx.rng.choice(["legacy", "legacy20", "modular", "enum"]), ctx.rng.choice(MODES)
         tok = _tokenizer(flavour, mode); ctt = mode == "AOTP_CTT_indexed"
         for limit in [None, 0, 1, k, k + 3, -1, ctx.rng.randint(0, k + 1)]:
             for join in (False, True):
-                case = dict(n_mazes=k, limit=limit, join=join, flavour=flavour, mode=mode, mazes=[maze_json(m) for m in mazes])
+                case = dict(n_mazes=k, limit=limit, join=join, flavour=flavour, mode=mode, mazes=[maze_json(m) for m in mazes], collection_members=members)
                 ctx.case(dict(ds=[maze_json(m) for m in mazes], l=limit, j=join, f=flavour, m=mode), nontrivial=k > 0); ctx.count("stream=dataset")
                 try:
                     out = ds.as_tokens(tok, limit=limit, join_tokens_individual_maze=join)
@@ -452,7 +461,7 @@ def dataset_level(ctx, reqs, pend, n_sets):
                         if canon_tokens(list(toks), ctt) != canon_tokens(list(m.as_tokens(tok)), ctt):
                             why = f"entry {i} is not the tokenization of maze {i}"; break
                 if why:
-                    ctx.violate(f"MazeDataset.as_tokens(limit={limit}, join={join}) on {k} mazes ({flavour}/{mode}): {why}", case); return
+                    ctx.violate(f"{'MazeDataset' if members is None else 'MazeDatasetCollection (members of ' + str(members) + ' mazes)'}.as_tokens(limit={limit}, join={join}) on {k} mazes ({flavour}/{mode}): {why}", case); return
                 reqs.append(dict(op="C07.slice", n=k, limit=limit)); pend.append(("slice", dict(n=k, limit=limit), list(range(k))[:limit], None))
 
 
